@@ -159,11 +159,20 @@ def _evaluate_require(ast, file_path, package_lua, lua_path=None):
             # first require() the Lua interpreter encounters.)
 
             if not use_game_loop:
-                reqd_lua.root.stats[:] = [
-                    s for s in reqd_lua.root.stats
-                    if not isinstance(s, parser.StatFunction) or
-                    s.funcname.namepath[0].value not in GAME_LOOP_FUNCTION_NAMES]  # noqa: E501
-                reqd_lua.reparse(writer_cls=lua.LuaASTEchoWriter)
+                # Drop the tokens of the top-level game loop functions, then
+                # parse what remains. (Removing the statements from the AST
+                # alone leaves the token stream out of step with the tree.)
+                dropped = set()
+                for s in reqd_lua.root.stats:
+                    if (isinstance(s, parser.StatFunction) and
+                            s.funcname.namepath[0].value in GAME_LOOP_FUNCTION_NAMES):  # noqa: E501
+                        dropped.update(range(s.start_pos, s.end_pos))
+                if dropped:
+                    reqd_lua = lua.Lua.from_lines(
+                        [b''.join(t.code
+                                  for i, t in enumerate(reqd_lua.tokens)
+                                  if i not in dropped)],
+                        version=game.DEFAULT_VERSION)
 
             package_lua[require_path] = reqd_lua
             _evaluate_require(reqd_lua, reqd_filepath,
